@@ -213,64 +213,90 @@ class Random(Fam):
 
 
 class LongContigs(Fam):
-    """Contigs longer than 2^20 nt.  TLC judges overlapping 2,000-nt pieces of the contig (overlap |prefix|+k-1, so that every
+    """Contigs longer than 2^16 / 2^20 nt.  TLC judges overlapping 2,000-nt pieces of the contig (overlap |prefix|+k-1, so that every
     prefix+k-mer window lies inside some piece - lemma LemmaPieces, model-checked); the signature of the whole contig must be the
     union of the piece signatures TLC accepted."""
     name = 'long-contigs'
     exhaustive = False
-    rule = ('contigs of 2^20 + 3000 nt with prefix occurrences planted at every offset 2^20-j, j in 0..|prefix|+k+1, on both strands (k=11/ATGAC '
-            'and k=5/AT): the whole-contig signature must equal the union of the signatures of overlapping 2,000-nt pieces, each judged by TLC')
+    rule = ('contigs of 2^20 + 3000 nt; one variant per (boundary B in {2^16, 2^20}, offset j in -2..|prefix|+k+1, strand) with a prefix occurrence '
+            'planted at B-j (k=11/ATGAC; thorough also 5/AT, 16/ATG, 3/ACA and B = 2^24): the whole-contig signature must equal the union of '
+            'the signatures of overlapping 2,000-nt pieces; the piece holding the planted occurrence is judged by TLC in every variant')
     procs = 16
+    STEP = 2000
 
     def inputs(self, ctx):
         return []
 
     @staticmethod
-    def build(seed, k, pre):
+    def base(seed, n):
         import random
         rng = random.Random(seed)
-        n = (1 << 20) + 3000
-        s = bytearray(rng.choice(b'ACGT') for _ in range(n))
+        return rng.randbytes(n).translate(bytes(b'ACGT'[i & 3] for i in range(256)))
+
+    @staticmethod
+    def variants(k, pre, boundaries):
         T = len(pre) + k
+        return [(B, j, rev) for B in boundaries for j in range(-2, T + 2) for rev in (False, True)]
+
+    @staticmethod
+    def variant(base, pre, B, j, rev):
         rc = bytes({65: 84, 84: 65, 67: 71, 71: 67}[c] for c in reversed(pre))
-        for j in range(0, T + 2):
-            p = (1 << 20) - j
-            w = pre if j % 2 == 0 else rc
-            s[p:p + len(pre)] = w
-            s[p - 400 - 37 * j: p - 400 - 37 * j + len(pre)] = rc if j % 2 == 0 else pre
+        s = bytearray(base)
+        s[B - j:B - j + len(pre)] = rc if rev else pre
         return bytes(s)
+
+    @classmethod
+    def pieces(cls, n, T):
+        return [(a, min(n, a + cls.STEP + T - 1)) for a in range(0, n, cls.STEP)]
+
+
+def long_contig_variants(ctx, k, pre, seed, boundaries, n):
+    """yields (label, contig bytes, required signature as a set of ints, TLC-judge inputs for the pieces touched by the planting)"""
+    T = len(pre) + k
+    kspec = KmerSpec(k, pre.decode())
+    base = LongContigs.base(seed, n)
+    pcs = LongContigs.pieces(n, T)
+    base_sigs = [frozenset(int(v) for v in calc_signature(kspec, base[a:b], accumulator=SetAccumulator(k))) for a, b in pcs]
+    for (B, j, rev) in LongContigs.variants(k, pre, boundaries):
+        s = LongContigs.variant(base, pre, B, j, rev)
+        lo, hi = B - j, B - j + len(pre)
+        union = set()
+        judged = []
+        for (a, b), bs in zip(pcs, base_sigs):
+            if a < hi and b > lo:
+                piece = s[a:b]
+                union |= set(int(v) for v in calc_signature(kspec, piece, accumulator=SetAccumulator(k)))
+                judged.append(dict(op='sig', k=k, pre=list(pre), seqs=[list(piece)], types=['bytes'], accs=['set']))
+            else:
+                union |= bs
+        yield f'B{B}:j{j}:{"rev" if rev else "fwd"}', s, union, judged
+
+
+def long_contig_sets(ctx):
+    if ctx.tier == 'quick':
+        return [(11, b'ATGAC', ctx.seed, [1 << 16, 1 << 20], (1 << 20) + 3000)]
+    return [(11, b'ATGAC', ctx.seed, [1 << 16, 1 << 20], (1 << 20) + 3000), (5, b'AT', ctx.seed + 1, [1 << 16, 1 << 20], (1 << 20) + 3000),
+            (16, b'ATG', ctx.seed + 2, [1 << 20], (1 << 20) + 3000), (3, b'ACA', ctx.seed + 3, [1 << 20], (1 << 20) + 3000),
+            (11, b'ATGAC', ctx.seed + 4, [1 << 24], (1 << 24) + 3000)]
 
 
 def long_contig_check(ctx):
     fam = LongContigs()
-    nrec = 0
-    for (k, pre, seed) in [(11, b'ATGAC', ctx.seed)] if ctx.tier == 'quick' else [(11, b'ATGAC', ctx.seed), (5, b'AT', ctx.seed + 1), (16, b'ATG', ctx.seed + 2), (3, b'ACA', ctx.seed + 3)]:
-        s = LongContigs.build(seed, k, pre)
-        T = len(pre) + k
-        kspec = KmerSpec(k, pre)
-        whole = set(int(v) for v in calc_signature(kspec, s))
-        # pieces around the window boundary region are judged by TLC; far away only every 40th piece (cost), all pieces are used for the union
-        step = 2000
-        pieces = [(a, min(len(s), a + step + T - 1)) for a in range(0, len(s), step)]
-        union = set()
+    for (k, pre, seed, boundaries, n) in long_contig_sets(ctx):
+        kspec = KmerSpec(k, pre.decode())
         judged_inputs = []
-        for idx, (a, b) in enumerate(pieces):
-            sig = calc_signature(kspec, s[a:b], accumulator=SetAccumulator(k))
-            union |= set(int(v) for v in sig)
-            near = abs(a - (1 << 20)) < 3 * step or abs(b - (1 << 20)) < 3 * step
-            if near or idx % (150 if ctx.tier == 'quick' else 40) == 0:
-                judged_inputs.append(dict(op='sig', k=k, pre=list(pre), seqs=[list(s[a:b])], types=['bytes'], accs=['default']))
-        recs, bad = core.run_family(ctx, fam, inputs=judged_inputs)
-        nrec += len(recs)
-        if whole != union:
-            missing = sorted(union - whole)[:3]
-            extra = sorted(whole - union)[:3]
-            ctx.report('long-contigs', dict(k=k, pre=list(pre), seed=seed, length=len(s)), dict(missing=missing, extra=extra, n_whole=len(whole), n_union=len(union)),
-                       ['whole-contig-signature-differs-from-union-of-overlapping-pieces'], key=f'long-contig:k{k}',
-                       describe=f'k={k} prefix={pre!r} length={len(s)}: {len(union - whole)} k-mers missing, {len(whole - union)} extra')
-        ctx.nontrivial_keys.add(('long', k, seed))
-        ctx.traces += 1
-        ctx.evaluations += 1
+        for label, s, union, judged in long_contig_variants(ctx, k, pre, seed, boundaries, n):
+            whole = set(int(v) for v in calc_signature(kspec, s))
+            judged_inputs += judged
+            if whole != union:
+                ctx.report('long-contigs', dict(k=k, pre=list(pre), seed=seed, length=len(s), variant=label),
+                           dict(missing=sorted(union - whole)[:3], extra=sorted(whole - union)[:3], n_whole=len(whole), n_union=len(union)),
+                           ['whole-contig-signature-differs-from-union-of-overlapping-pieces'], key=f'long-contig:k{k}:{label}',
+                           describe=f'k={k} prefix={pre!r} length={len(s)} planted {label}: {len(union - whole)} k-mers missing, {len(whole - union)} extra')
+            ctx.nontrivial_keys.add(('long', k, label))
+            ctx.traces += 1
+            ctx.evaluations += 1
+        core.run_family(ctx, fam, inputs=judged_inputs)
 
 
 FAMILIES = [ExhaustiveN, ExhaustiveMixed, Random]
